@@ -557,7 +557,7 @@ structure PPRule where
 '''
 
 
-def render(rows, rejections, chain, run_else, calls, rules) -> str:
+def render(rows, rejections, chain, run_else, calls, rules, env_vars) -> str:
     out = [HEADER]
     out.append("/-- `parser._actions`, in order. -/")
     out.append("def actions : List OptSpec := [")
@@ -580,8 +580,61 @@ def render(rows, rejections, chain, run_else, calls, rules) -> str:
     out.append("]\n")
     out.append("/-- `_build_post_processor_list_from_args`, statement by statement. -/")
     out.append("def ppRules : List PPRule := [" + ", ".join(f"⟨{c}, {k}⟩" for c, k in rules) + "]\n")
+    out.append("/-- The environment variables whose entries `main` appends (sorted) to `--lookup-dir`: the runner uses that one list\n"
+               "both for the DSDL front end and for listing the lookup definitions. -/")
+    out.append("def envIncludeVars : List String := " + _lst(env_vars) + "\n")
     out.append("end NunavutVerif.Gen.CliArgs\n")
     return "\n".join(out)
+
+
+def _env_includes(cli_src, runners_src):
+    """Where lookup directories come from: `main` must hand `args.lookup_dir` plus the sorted entries of the environment
+    variables it reads through `_extra_includes_from_env("<NAME>")` to `ArgparseRunner` as `extra_includes`, and the runner must
+    use that one list (`self._extra_includes`) both for the DSDL front end and for the listing of lookup definitions."""
+    tree = ast.parse(cli_src)
+    main = [n for n in tree.body if isinstance(n, ast.FunctionDef) and n.name == "main"]
+    if len(main) != 1:
+        raise CannotTranslate("cli/__init__.py: main not found")
+    names, env_vars = [], {}
+    for node in ast.walk(main[0]):
+        if isinstance(node, ast.Assign) and len(node.targets) == 1 and isinstance(node.targets[0], ast.Name) and isinstance(node.value, ast.Call) \
+                and isinstance(node.value.func, ast.Name) and node.value.func.id == "_extra_includes_from_env":
+            a = node.value.args
+            if len(a) != 1 or not (isinstance(a[0], ast.Constant) and isinstance(a[0].value, str)):
+                raise CannotTranslate("_extra_includes_from_env with a non-literal variable name")
+            env_vars[node.targets[0].id] = a[0].value
+    added = []
+    for node in ast.walk(main[0]):
+        if isinstance(node, ast.AugAssign) and isinstance(node.op, ast.Add) and isinstance(node.target, ast.Name) and node.target.id == "extra_includes":
+            v = node.value
+            if isinstance(v, ast.Call) and isinstance(v.func, ast.Name) and v.func.id == "sorted" and len(v.args) == 1 \
+                    and isinstance(v.args[0], ast.Name) and v.args[0].id in env_vars:
+                added.append(env_vars[v.args[0].id])
+            else:
+                raise CannotTranslate("main: extra_includes += … is not `sorted(<result of _extra_includes_from_env>)`")
+    runner_calls = [n for n in ast.walk(main[0]) if isinstance(n, ast.Call) and isinstance(n.func, ast.Name) and n.func.id == "ArgparseRunner"]
+    ok = (len(runner_calls) == 1 and len(runner_calls[0].args) == 3 and isinstance(runner_calls[0].args[2], ast.Name)
+          and runner_calls[0].args[2].id == "extra_includes" and sorted(added) == sorted(env_vars.values()))
+    if not ok:
+        raise CannotTranslate("main no longer hands args.lookup_dir + the environment's lookup directories to ArgparseRunner as extra_includes")
+    # the runner: one list for the front end and for the listing
+    rt = ast.parse(runners_src)
+    cls = [n for n in rt.body if isinstance(n, ast.ClassDef) and n.name == "ArgparseRunner"][0]
+    fns = {n.name: n for n in cls.body if isinstance(n, ast.FunctionDef)}
+
+    def is_self_extra(node):
+        return (isinstance(node, ast.Attribute) and node.attr == "_extra_includes" and isinstance(node.value, ast.Name) and node.value.id == "self")
+    reads = [n for n in ast.walk(fns["__init__"]) if isinstance(n, ast.Call) and isinstance(n.func, ast.Name) and n.func.id == "read_dsdl_namespace"]
+    if len(reads) != 1 or len(reads[0].args) < 2 or not is_self_extra(reads[0].args[1]):
+        raise CannotTranslate("ArgparseRunner.__init__: read_dsdl_namespace is not called with self._extra_includes as lookup directories")
+    if "_lookup_dsdl_files" in fns:
+        loops = [n for n in ast.walk(fns["_lookup_dsdl_files"]) if isinstance(n, ast.For)]
+        if not loops or not is_self_extra(loops[0].iter):
+            raise CannotTranslate("_lookup_dsdl_files does not walk self._extra_includes (the list the DSDL front end gets)")
+    assigns = [n for n in ast.walk(fns["__init__"]) if isinstance(n, ast.Assign) and len(n.targets) == 1 and is_self_extra(n.targets[0])]
+    if len(assigns) != 1 or not (isinstance(assigns[0].value, ast.Name) and assigns[0].value.id == "extra_includes"):
+        raise CannotTranslate("ArgparseRunner.__init__: self._extra_includes is not the extra_includes argument")
+    return sorted(env_vars.values())
 
 
 def collect(repo: pathlib.Path):
@@ -604,18 +657,19 @@ def collect(repo: pathlib.Path):
     for d, _ in chain:
         if d not in dests:
             raise CannotTranslate(f"run() reads self._args.{d}: no such dest")
-    return rows, rej, chain, run_else, calls, rules
+    env_vars = _env_includes(cli_src, runners_src)
+    return rows, rej, chain, run_else, calls, rules, env_vars
 
 
 def main(repo: pathlib.Path, dest: pathlib.Path = OUT) -> dict:
-    rows, rej, chain, run_else, calls, rules = collect(repo)
-    text = render(rows, rej, chain, run_else, calls, rules)
+    rows, rej, chain, run_else, calls, rules, env_vars = collect(repo)
+    text = render(rows, rej, chain, run_else, calls, rules, env_vars)
     dest.parent.mkdir(parents=True, exist_ok=True)
     changed = (not dest.exists()) or dest.read_text() != text
     if changed:
         dest.write_text(text)
     return {"changed": changed, "actions": len(rows), "rejections": rej, "chain": chain, "else": run_else,
-            "calls": [(c["method"], c["target"], c["fn"]) for c in calls], "ppRules": rules}
+            "calls": [(c["method"], c["target"], c["fn"]) for c in calls], "ppRules": rules, "envIncludeVars": env_vars}
 
 
 if __name__ == "__main__":
